@@ -40,6 +40,7 @@ type Event struct {
 
 type Case struct {
 	Thorough bool    `json:"thorough_universe"`
+	Universe string  `json:"universe,omitempty"` // "" = main universe, "prefix" = prefix-collision universe
 	History  []Event `json:"history"`
 	Call     Call    `json:"call"`
 	Memory   any     `json:"memory,omitempty"`
@@ -59,6 +60,8 @@ type template struct {
 }
 
 var tpl template
+
+var minMu sync.Mutex // guards the per-signature minimal examples
 
 func (t *template) init() {
 	t.once.Do(func() {
@@ -595,6 +598,7 @@ func expected(u []Tup, state []int, c Call) map[string]string {
 
 type explorer struct {
 	r        *core.Report
+	uname    string // "" main universe, "prefix" prefix-collision universe
 	u        []Tup
 	thorough bool
 	battery  []Call
@@ -606,7 +610,6 @@ type explorer struct {
 	undecided   atomic.Int64
 	sampled     atomic.Int64
 
-	minMu   sync.Mutex
 	minimal map[string]Case // per signature: the case with the shortest history / simplest call
 	minCost map[string]int
 }
@@ -662,7 +665,7 @@ func (x *explorer) observe(in *Inst, hist []Event, want int) int {
 			which = "sqlite"
 		}
 		x.r.Violate(which+"/Write/store-contents-differ-from-history", fmt.Sprintf("after the history the store should hold %v; memory=%v sqlite=%v", state, rm.Strings(), rs.Strings()),
-			Case{Thorough: x.thorough, History: hist, Call: all, Memory: rm.Strings(), SQLite: rs.Strings()})
+			Case{Thorough: x.thorough, Universe: x.uname, History: hist, Call: all, Memory: rm.Strings(), SQLite: rs.Strings()})
 		return -1
 	}
 	return want
@@ -675,12 +678,12 @@ func (x *explorer) violate(sig, desc string, c Case) {
 	for _, e := range c.History {
 		cost += 1000 * (len(e.T) - 1)
 	}
-	x.minMu.Lock()
+	minMu.Lock()
 	if old, ok := x.minCost[sig]; !ok || cost < old {
 		c.Note = desc
 		x.minCost[sig], x.minimal[sig] = cost, c
 	}
-	x.minMu.Unlock()
+	minMu.Unlock()
 }
 
 // runBattery executes every call in the current state of the instance; returns the digests per call.
@@ -696,7 +699,7 @@ func (x *explorer) runBattery(in *Inst, hist []Event, mask int, prev map[string]
 		devs := Compare(x.u, state, c, rm, rs)
 		key := c.Key()
 		for _, d := range devs {
-			x.violate(d.Sig, d.Desc, Case{Thorough: x.thorough, History: hist, Call: c, Memory: rm.Strings(), SQLite: rs.Strings(), Expected: expected(x.u, state, c)})
+			x.violate(d.Sig, d.Desc, Case{Thorough: x.thorough, Universe: x.uname, History: hist, Call: c, Memory: rm.Strings(), SQLite: rs.Strings(), Expected: expected(x.u, state, c)})
 		}
 		// non-trivial: the filter discriminates in this state (documentation admits one stored tuple and excludes another)
 		y, n, o := 0, 0, 0
@@ -714,9 +717,9 @@ func (x *explorer) runBattery(in *Inst, hist []Event, mask int, prev map[string]
 			x.undecided.Add(1)
 		}
 		if y > 0 && n > 0 {
-			x.r.Nontrivial(core.Hash(itoa(mask), key))
+			x.r.Nontrivial(core.Hash(x.uname, itoa(mask), key))
 			if x.sampled.Add(1)%40000 == 1 {
-				x.r.Sample(map[string]any{"history": hist, "call": c, "memory": rm.Strings(), "sqlite": rs.Strings(), "documented": expected(x.u, state, c)})
+				x.r.Sample(map[string]any{"universe": x.uname, "history": hist, "call": c, "memory": rm.Strings(), "sqlite": rs.Strings(), "documented": expected(x.u, state, c)})
 			}
 		}
 		d := [2]string{rm.Canon(), rs.Canon()}
@@ -728,7 +731,7 @@ func (x *explorer) runBattery(in *Inst, hist []Event, mask int, prev map[string]
 					which = "sqlite"
 				}
 				x.violate(which+"/"+c.Kind+"/result-depends-on-history", fmt.Sprintf("same tuple set reached by another history: first %q, now %q", p, d),
-					Case{Thorough: x.thorough, History: hist, Call: c, Memory: rm.Strings(), SQLite: rs.Strings(), Note: "compare with the shortest history of the same state"})
+					Case{Thorough: x.thorough, Universe: x.uname, History: hist, Call: c, Memory: rm.Strings(), SQLite: rs.Strings(), Note: "compare with the shortest history of the same state"})
 			}
 		}
 	}
@@ -746,7 +749,7 @@ func (x *explorer) step(in *Inst, hist []Event, e Event, mask int) ([]Event, int
 	x.transitions.Add(1)
 	h2 := append(append([]Event{}, hist...), e)
 	if errs[0] != "" || errs[1] != "" {
-		x.r.Violate("Write/valid-history-event-rejected", fmt.Sprintf("memory=%q sqlite=%q", errs[0], errs[1]), Case{Thorough: x.thorough, History: h2, Call: Call{Kind: "Read"}})
+		x.r.Violate("Write/valid-history-event-rejected", fmt.Sprintf("memory=%q sqlite=%q", errs[0], errs[1]), Case{Thorough: x.thorough, Universe: x.uname, History: h2, Call: Call{Kind: "Read"}})
 		return h2, mask, false
 	}
 	next := mask
@@ -837,57 +840,8 @@ func (x *explorer) exploreState(hist []Event, mask int) (succ []int) {
 	return succ
 }
 
-func Run(o *core.Options) int {
-	r := core.NewReport(o, "model_checking",
-		"States = tuple sets over a fixed universe (8 tuples quick, 10 thorough) that collides on every filter dimension, reached by write/delete histories executed on a real memory datastore AND a real SQLite database (BFS over histories, one fresh pair of instances per state, deduplicated by the observed store contents). In every state the whole battery of read calls (Read, ReadPage with page sizes 2 and 100, ReadUserTuple, ReadUsersetTuples, ReadStartingWithUser; every listed filter combination incl. empty/duplicated lists) runs on both backends; then every enabled event and its inverse is applied, which re-reaches the state by a delete-and-re-add (or add-and-delete) history; on the first such re-reached instance (thorough: on about half of all of them, plus a one-batch history) the battery runs again and is compared with the first instance. A case = (state, call); it is non-trivial when the documented semantics admits at least one stored tuple and excludes at least another one (the filter discriminates in that state); distinct = distinct (state, call) pairs.")
-	r.Assume(
-		"bound: universe of 8 (quick) / 10 (thorough) tuples => 256 / 1024 states; histories: shortest write history per state, all single-tuple write/delete events from every state with their inverses; thorough additionally a one-batch reverse-order history per state and the battery after about half of the further round trips",
-		"reference semantics = plain-Go transcription of the doc comments in pkg/storage/storage.go (RelationshipTupleReader, ReadFilter, ReadUsersetTuplesFilter, ReadStartingWithUserFilter); the forms `type:` for object and user are read as 'of that type' (public Read API description); where the documentation gives no meaning (relation-only tuple key, empty user filter, userset inside ObjectRelation.Object, present-but-empty condition list, type-only user vs. usersets) only 'memory = SQLite' is required",
-		"results are compared as multisets (documentation: no order guarantee); with WithResultsSortedAscending the sequence must be non-decreasing in the object",
-		"condition round trip: same name and proto.Equal context, an absent context being equal to an empty one",
-		"SQL backend = SQLite only (PostgreSQL/MySQL need a server; they share sqlcommon but have their own filter builders)",
-		"each SQLite instance is a file copy of one migrated empty template database",
-	)
-	x := &explorer{r: r, thorough: o.Thorough(), u: Universe(o.Thorough()), battery: Battery(o.Thorough()), minimal: map[string]Case{}, minCost: map[string]int{}}
-	defer func() {
-		if tpl.rm != nil {
-			tpl.rm()
-		}
-	}()
-
-	if o.Replay != "" {
-		var c Case
-		if err := core.LoadReplay(o.Replay, &c); err != nil {
-			fmt.Fprintln(os.Stderr, err)
-			return 2
-		}
-		x.thorough = c.Thorough
-		x.u = Universe(c.Thorough)
-		x.battery = Battery(c.Thorough)
-		in := NewInst()
-		defer in.close()
-		cur, ok := 0, true
-		var h []Event
-		for _, e := range c.History {
-			h, cur, ok = x.step(in, h, e, cur)
-			if !ok {
-				break
-			}
-		}
-		if ok {
-			state := stateOf(cur, len(x.u))
-			rm, rs := Exec(in.mem, c.Call, len(x.u)), Exec(in.sql, c.Call, len(x.u))
-			r.Eval(1)
-			fmt.Printf("state=%v\ncall=%s\nmemory=%v\nsqlite=%v\ndocumented=%v\n", state, c.Call.Key(), rm.Strings(), rs.Strings(), expected(x.u, state, c.Call))
-			for _, d := range Compare(x.u, state, c.Call, rm, rs) {
-				r.Violate(d.Sig, d.Desc, c)
-			}
-		}
-		r.States, r.Transitions, r.Traces = 1, int64(len(c.History))+1, int64(len(c.History))+1
-		return r.Finish()
-	}
-
-	// BFS over histories, level by level (level k = states first reached by k events)
+// bfs explores all states of x.u: BFS over histories, level by level (level k = states first reached by k events).
+func (x *explorer) bfs() (int, int) {
 	type node struct {
 		hist []Event
 		mask int
@@ -895,6 +849,7 @@ func Run(o *core.Options) int {
 	seen := map[int]bool{0: true}
 	frontier := []node{{nil, 0}}
 	states, depth := 0, 0
+	r := x.r
 	for len(frontier) > 0 && !r.Expired() {
 		succs := make([][]int, len(frontier))
 		r.Parallel(len(frontier), func(i int) {
@@ -930,6 +885,78 @@ func Run(o *core.Options) int {
 	if len(frontier) > 0 {
 		r.NotExhaustive("internal deadline reached before the frontier was empty")
 	}
+	return states, depth
+}
+
+func Run(o *core.Options) int {
+	r := core.NewReport(o, "model_checking",
+		"States = tuple sets over two fixed universes - the main one (8 tuples quick, 10 thorough) that collides on every filter dimension, and a 7-tuple prefix universe in which every dimension has a pair of names one of which is a prefix of the other (reduced battery) - reached by write/delete histories executed on a real memory datastore AND a real SQLite database (BFS over histories, one fresh pair of instances per state, deduplicated by the observed store contents). In every state the whole battery of read calls (Read, ReadPage with page sizes 2 and 100, ReadUserTuple, ReadUsersetTuples, ReadStartingWithUser; every listed filter combination incl. empty/duplicated lists) runs on both backends; then every enabled event and its inverse is applied, which re-reaches the state by a delete-and-re-add (or add-and-delete) history; on the first such re-reached instance (thorough: on about half of all of them, plus a one-batch history) the battery runs again and is compared with the first instance. A case = (state, call); it is non-trivial when the documented semantics admits at least one stored tuple and excludes at least another one (the filter discriminates in that state); distinct = distinct (state, call) pairs.")
+	r.Assume(
+		"bound: main universe of 8 (quick) / 10 (thorough) tuples => 256 / 1024 states, plus the prefix universe of 7 tuples => 128 states; histories: shortest write history per state, all single-tuple write/delete events from every state with their inverses; thorough additionally a one-batch reverse-order history per state and the battery after about half of the further round trips",
+		"reference semantics = plain-Go transcription of the doc comments in pkg/storage/storage.go (RelationshipTupleReader, ReadFilter, ReadUsersetTuplesFilter, ReadStartingWithUserFilter); the forms `type:` for object and user are read as 'of that type' (public Read API description); where the documentation gives no meaning (relation-only tuple key, empty user filter, userset inside ObjectRelation.Object, present-but-empty condition list, type-only user vs. usersets) only 'memory = SQLite' is required",
+		"results are compared as multisets (documentation: no order guarantee); with WithResultsSortedAscending the sequence must be non-decreasing in the object",
+		"condition round trip: same name and proto.Equal context, an absent context being equal to an empty one",
+		"SQL backend = SQLite only (PostgreSQL/MySQL need a server; they share sqlcommon but have their own filter builders)",
+		"each SQLite instance is a file copy of one migrated empty template database",
+	)
+	x := &explorer{r: r, thorough: o.Thorough(), u: Universe(o.Thorough()), battery: Battery(o.Thorough()), minimal: map[string]Case{}, minCost: map[string]int{}}
+	defer func() {
+		if tpl.rm != nil {
+			tpl.rm()
+		}
+	}()
+
+	if o.Replay != "" {
+		var c Case
+		if err := core.LoadReplay(o.Replay, &c); err != nil {
+			fmt.Fprintln(os.Stderr, err)
+			return 2
+		}
+		x.thorough = c.Thorough
+		x.u = Universe(c.Thorough)
+		x.battery = Battery(c.Thorough)
+		if c.Universe == "prefix" {
+			x.uname, x.u, x.battery = "prefix", PrefixUniverse(), PrefixBattery()
+		}
+		in := NewInst()
+		defer in.close()
+		cur, ok := 0, true
+		var h []Event
+		for _, e := range c.History {
+			h, cur, ok = x.step(in, h, e, cur)
+			if !ok {
+				break
+			}
+		}
+		if ok {
+			state := stateOf(cur, len(x.u))
+			rm, rs := Exec(in.mem, c.Call, len(x.u)), Exec(in.sql, c.Call, len(x.u))
+			r.Eval(1)
+			fmt.Printf("state=%v\ncall=%s\nmemory=%v\nsqlite=%v\ndocumented=%v\n", state, c.Call.Key(), rm.Strings(), rs.Strings(), expected(x.u, state, c.Call))
+			for _, d := range Compare(x.u, state, c.Call, rm, rs) {
+				r.Violate(d.Sig, d.Desc, c)
+			}
+		}
+		r.States, r.Transitions, r.Traces = 1, int64(len(c.History))+1, int64(len(c.History))+1
+		return r.Finish()
+	}
+
+	states, depth := x.bfs()
+	// second, small universe: every filter dimension has two names of which one is a prefix of the other
+	// (user/users, doc/docs, 1/10, r1/r10, a/ab, member/members, cx/cx2), reduced battery with the
+	// type-only and the exact filters for both members of every pair
+	px := &explorer{r: r, uname: "prefix", thorough: o.Thorough(), u: PrefixUniverse(), battery: PrefixBattery(), minimal: x.minimal, minCost: x.minCost}
+	pstates, pdepth := px.bfs()
+	states += pstates
+	x.transitions.Add(px.transitions.Load())
+	x.instances.Add(px.instances.Load())
+	x.batteries.Add(px.batteries.Load())
+	x.calls.Add(px.calls.Load())
+	x.undecided.Add(px.undecided.Load())
+	r.Set("prefix_universe", px.u)
+	r.Set("prefix_universe_states", pstates)
+	r.Set("prefix_universe_max_depth", pdepth)
+	r.Set("prefix_battery_calls_per_state_and_backend", len(px.battery))
 	r.States = int64(states)
 	r.Transitions = x.transitions.Load()
 	r.Traces = x.transitions.Load()
